@@ -411,8 +411,69 @@ def random_case(ctx, T, rng):
     run_rx_case(ctx, T, shape, rng=rng)
 
 
+from vf.core import exc_key
+
+
+def close_reopen_case(ctx, T, lens, when):
+    """a client that is closed by its owner with messages still queued, serviced while closed (the owner's loop keeps
+    running), then opened and connected again: what was queued is sent once and in order on the sockets, service calls on
+    the closed client leave the queue alone.  when: how many messages were serviced before the close."""
+    from vf.iodoubles import FakeSocket, NEAR
+    ub = UniqueBytes()
+    msgs = [ub.take(n) for n in lens]
+    wires = Wires()
+    obj, fake, addr = T.make(wires)
+    ctx.case((T.name, "close-reopen", lens, when), nontrivial=True)
+    ctx.hit("close_reopen_cases_%s" % T.name)
+    raised = None
+    steps = []
+    fake2 = None
+    try:
+        for m in msgs[:when]:
+            T.queue(obj, m)
+        obj.serviceTxes()
+        steps.append("serviced %d" % when)
+        for m in msgs[when:]:
+            T.queue(obj, m)
+        obj.close()
+        steps.append("closed")
+        for _ in range(2):
+            obj.serviceTxes()
+            obj.serviceReceives()
+        steps.append("serviced while closed")
+        left = b"".join(bytes(x) for x in T.txq(obj))
+        ctx.check(left == b"".join(msgs[when:]) and not obj.connected,
+                  "%s/close/queue-or-connected-flag-wrong-while-closed" % T.name,
+                  "%s: after close() (connected=%r) the transmit queue no longer holds exactly the messages not yet sent" % (T.name, obj.connected),
+                  lambda: {"class": T.name, "lengths": list(lens), "serviced_before_close": when, "left": left.hex(),
+                           "want": b"".join(msgs[when:]).hex(), "connected": obj.connected})
+        blocks = WANT_READ if T.tls else WOULDBLOCK
+        fake2 = FakeSocket(sockname=NEAR, peername=PEER, defaults={"recv": blocks})
+        obj.cs = fake2
+        obj.opened = True
+        if not obj.connect():
+            raise RuntimeError("double did not connect again")
+        obj.serviceTxes()
+        steps.append("reconnected and serviced")
+    except Exception as e:    # noqa
+        raised = e
+    sent1 = b"".join(d for (op, d, r) in fake.log if op == "send" and isinstance(r, int))
+    sent2 = b"".join(d for (op, d, r) in (fake2.log if fake2 is not None else []) if op == "send" and isinstance(r, int))
+    ctx.event()
+    ctx.check(raised is None and sent1 + sent2 == b"".join(msgs),
+              "%s/close-reopen/%s" % (T.name, "raises/" + exc_key(raised) if raised is not None else "bytes-lost-or-repeated"),
+              "%s: messages queued around a close() / open / connect are not sent exactly once and in order (%s)" % (
+                  T.name, ("raised %r" % (raised,)) if raised is not None else "bytes differ"),
+              lambda: {"class": T.name, "lengths": list(lens), "serviced_before_close": when, "steps": steps, "raised": repr(raised),
+                       "sent_before_close": sent1.hex(), "sent_after_reconnect": sent2.hex(), "queued": b"".join(msgs).hex()})
+
+
 def worker(ctx, job):
     T = TRANSPORTS[job["cls"]]
+    if job["k"] == 0 and T.name in ("Client", "ClientTls", "ClientSharedBuffers"):
+        for lens in ((2,), (1, 2), (2, 1, 3), (3, 3), (1, 1, 1, 1)):
+            for when in range(0, len(lens)):
+                close_reopen_case(ctx, T, lens, when)
     M, L, D = job["M"], job["L"], job["D"]
     Ms, Ls, Ds = job["Ms"], job["Ls"], job["Ds"]
     K, k = job["K"], job["k"]
